@@ -3030,9 +3030,13 @@ class Env(cabc.MutableMapping):
         # may mask either an underlying overlay or `_d`/defaults; `_d`
         # itself may also hold the sentinel (set via swap thread-local).
         masked = set()
+        decided = set()  # the top-most overlay that has a key decides
         for overlay in reversed(self._overlay_stack):
             for k, v in overlay.items():
-                if v is DELETE_VAR and k not in masked:
+                if k in decided:
+                    continue
+                decided.add(k)
+                if v is DELETE_VAR:
                     masked.add(k)
         for key in self.rawkeys():
             if not isinstance(key, str):
